@@ -58,11 +58,16 @@ Exit ==
 \* critical section (install = counter reset, one call, verdict), so no scope exit may ever complain
 Helper == Step("Helper") /\ Ev.failures = 0 /\ s' = s
 
+\* the earliest call: another thread calls the function the instant its entry has been flushed, in every one of many
+\* consecutive lifetimes through one fake!(.., times: n) line; that call is answered by the fake and is the installation's
+\* first call (C01 "from any thread", C07 "starts from zero"), so n - 1 further calls make every scope exit silent
+Early == Step("Early") /\ Ev.failures = 0 /\ Ev.early_calls = Ev.rounds /\ Ev.early_bad = 0 /\ s' = s
+
 ChildExit == Step("ChildExit") /\ Ev.signal = 0 /\ Ev.code = 0 /\ s' = s
 Note == Step("Note") /\ s' = s
 Other == l <= Last(sc) /\ Ev.ev \in {"Mmap", "Munmap", "Mprotect", "Write", "Flush"} /\ l' = l + 1 /\ sc' = sc /\ s' = s
 
-TraceNext == TimesBegin \/ Helper \/ Burst \/ CallStart \/ CallEnd \/ Exit \/ ChildExit \/ Note \/ Other \/ (\E id \in DOMAIN s.open : Fire(id))
+TraceNext == Early \/ TimesBegin \/ Helper \/ Burst \/ CallStart \/ CallEnd \/ Exit \/ ChildExit \/ Note \/ Other \/ (\E id \in DOMAIN s.open : Fire(id))
 TraceSpec == TraceInit /\ [][TraceNext]_tvars
 Track == TrackProgress(sc, l)
 Post == PrintProgress
